@@ -200,6 +200,20 @@ def run_layout_case(ctx, conv, R, rng, size, fields, used, values=None, tag="lay
             if f[0] == "m" and f[3] <= 20:  # enumeration members and flags are small numbers
                 given[name] = bool(vals[name]) if f[3] == 1 else harness.IntSub(vals[name])
         ctx.count("layouts_with_int_subclass_values")
+    # blob values as buffers whose items are wider than a byte (array('H') for words, array('I') for double words, a cast
+    # memoryview): the bytes of the buffer are what is written
+    if rng.random() < 0.2:
+        import array
+
+        for name, f in zip(names, fields):
+            if f[0] in ("w", "dw") and f[2] and rng.random() < 0.7:
+                code = {"w": "H", "dw": "I"}[f[0]]
+                if array.array(code).itemsize != f[3]:
+                    continue
+                arr = array.array(code)
+                arr.frombytes(bytes(vals[name]))
+                given[name] = arr if rng.random() < 0.6 else memoryview(bytearray(vals[name])).cast(code)
+                ctx.count("blob_values_with_wide_items")
     # ... in any Mapping (the notation's own type annotation), not only a dict
     as_mapping = rng.choice([dict, dict, dict, collections.UserDict, collections.OrderedDict, lambda d: collections.ChainMap(d)])
     data1 = {k: given[k] for k in order}
@@ -227,8 +241,26 @@ def run_layout_case(ctx, conv, R, rng, size, fields, used, values=None, tag="lay
         ctx.fail("C10:encode.order_dependent", "result depends on field order", wit)
     # decode what the reference encoded (plus noise outside): exact field bits
     out1 = {}
+    src1 = bytearray(ref)
     try:
+        conv.decode_bits(src1, check, out1)
+        # what was decoded is a snapshot: reusing the receive buffer afterwards does not change it, and editing a decoded blob in
+        # place does not write into (or resize) the buffer it came from
+        snap = {k: bytes(v) for k, v in out1.items() if isinstance(v, (bytes, bytearray, memoryview))}
+        for i in range(len(src1)):
+            src1[i] ^= 0xFF
+        if any(bytes(out1[k]) != b for k, b in snap.items()):
+            ctx.fail("C10:decode.blob_follows_source_buffer", "a decoded blob changed when the buffer it was decoded from was overwritten", wit)
+        before = bytes(src1)
+        for k, v in out1.items():
+            if isinstance(v, bytearray) and len(v):
+                v[0] ^= 0xFF
+                v += b"\x00"
+        if bytes(src1) != before:
+            ctx.fail("C10:decode.blob_is_the_source_buffer", "editing a decoded blob in place changed the buffer it was decoded from", wit)
+        out1 = {}
         conv.decode_bits(ref, check, out1)
+        ctx.count("decoded_blobs_checked_for_aliasing", len(snap))
     except Exception as e:  # noqa: BLE001
         ctx.fail("C10:decode.raises", "decode_bits raised %s" % type(e).__name__, wit, exc=e)
         return
@@ -392,7 +424,16 @@ def run(shard, ctx):
         invivo(ctx, conv, R)
         return
     for i in range(shard["n"]):
-        if i % 6 == 5:
+        if i % 17 == 3:
+            # one blob that is the whole buffer (a payload-only layout), or exactly its head or tail
+            unit_k = rng.choice([("b", 1), ("w", 2), ("dw", 4)])
+            n_items = rng.choice([1, 2, 3, 4, 8, 16, 64])
+            size = n_items * unit_k[1] + rng.choice([0, 0, 0, 1, 4])
+            off = rng.choice([0, 0, size - n_items * unit_k[1]])
+            fields = [(unit_k[0], off, n_items, unit_k[1])]
+            used = set(range(8 * off, 8 * (off + n_items * unit_k[1])))
+            ctx.count("whole_buffer_blob_layouts")
+        elif i % 6 == 5:
             size = rng.choice([200, 255, 256, 257, 300, 511, 512, 513, 520, 572, 1024, 1030, 2052, 4100])
             fields, used = gen_layout_big(rng, size)
             ctx.count("big_buffer_layouts")
